@@ -98,7 +98,7 @@ package netconf
 //@ func (*Driver).storeSubscriptionMessage [C08]
 //@   requires d.subscriptions != nil
 //@   modifies keys(d.subscriptions), alloc()
-//@ func (*Driver).read [C08 C02]
+//@ func (*Driver).read [C08]
 //@   maintains RI(d.Channel.Q)
 //@   requires d.messages != nil && d.subscriptions != nil
 //@   requires d.errs != d.Channel.Q.depthChan && d.done != d.Channel.Q.depthChan
@@ -106,9 +106,9 @@ package netconf
 //@   modifies d.Channel.Q.queue, d.Channel.Q.depth, chan(d.Channel.Q.depthChan), chan(d.errs), chan(d.done), chan(d.Channel.Errs), keys(d.messages), keys(d.subscriptions), bHead, rd, alloc()
 //@   loop 1 invariant RI(d.Channel.Q)
 //@   loop 1 set bHead = b
-//@   at call Sleep#* assert #unfinished-input-is-kept !reMatch(d.Channel.PromptPattern, bHead ++ rb) ==> b == bHead ++ rb
-//@   at call Sleep#* assert #a-complete-message-is-filed-under-its-id-and-the-buffer-restarts reMatch(d.Channel.PromptPattern, bHead ++ rb) && !contains(bHead ++ rb, "</rpc>") ==> len(b) == 0 && (msgID(bHead ++ rb) != 0 ==> has(d.messages, msgID(bHead ++ rb)) && get(d.messages, msgID(bHead ++ rb)) == bHead ++ rb)
-//@   at call Sleep#* assert #after-an-echo-only-the-part-behind-the-first-delimiter-is-kept reMatch(d.Channel.PromptPattern, bHead ++ rb) && contains(bHead ++ rb, "</rpc>") ==> b == reSplit(d.Channel.PromptPattern, bHead ++ rb, 2)[1]
+//@   at call Sleep#* assert [C08 C02] #unfinished-input-is-kept !reMatch(d.Channel.PromptPattern, bHead ++ rb) ==> b == bHead ++ rb
+//@   at call Sleep#* assert [C08 C02] #a-complete-message-is-filed-under-its-id-and-the-buffer-restarts reMatch(d.Channel.PromptPattern, bHead ++ rb) && !contains(bHead ++ rb, "</rpc>") ==> len(b) == 0 && (msgID(bHead ++ rb) != 0 ==> has(d.messages, msgID(bHead ++ rb)) && get(d.messages, msgID(bHead ++ rb)) == bHead ++ rb)
+//@   at call Sleep#* assert [C08 C02] #after-an-echo-only-the-part-behind-the-first-delimiter-is-kept reMatch(d.Channel.PromptPattern, bHead ++ rb) && contains(bHead ++ rb, "</rpc>") ==> b == reSplit(d.Channel.PromptPattern, bHead ++ rb, 2)[1]
 
 // ---- C08 / C09: Open starts the reader only after the version is settled, with the delimiter of that version ----------------
 //@ func (*Driver).getServerCapabilities [C05]
@@ -141,7 +141,7 @@ package netconf
 //@   ensures #reader-started-only-on-success-with-a-settled-version result == nil ==> (d.SelectedVersion == "1.0" || d.SelectedVersion == "1.1")
 
 // ---- C03: sendRPC hands serialize the driver's settings, each in its own place, and writes exactly the framed bytes -------
-//@ func (*Driver).sendRPC [C03 C05 C08]
+//@ func (*Driver).sendRPC [C03]
 //@   at call! WriteAndReturn#1 assert [C03] #exactly-the-framed-request-is-written-unredacted arg0 == serialized.framedXML && !arg1
 //@   at call WriteReturn#1 assert [C03] #an-extra-return-only-under-1.1-framing d.SelectedVersion == "1.1"
 //@   at call! NewNetconfResponse#1 assert [C03] #the-response-reports-the-bytes-that-were-framed arg0 == serialized.rawXML && arg1 == serialized.framedXML && arg4 == d.SelectedVersion
